@@ -630,7 +630,7 @@ fn call_defaults(m: &mut Map<String, Value>) {
 }
 
 impl<T: Smp> Inst<T> {
-    fn fill_input(&self, chan: usize, len: usize, zero_from: i64) -> Vec<T> {
+    fn fill_input(&self, chan: usize, len: usize, zero_from: i64, chbase: usize) -> Vec<T> {
         let mut v = Vec::with_capacity(len);
         for k in 0..len {
             if zero_from >= 0 && (k as i64) >= zero_from {
@@ -639,7 +639,7 @@ impl<T: Smp> Inst<T> {
                 v.push(T::from64(sample_at(
                     &self.signal,
                     self.seed,
-                    chan + self.chbase,
+                    chan + chbase,
                     self.pos + k as i64,
                 )));
             }
@@ -731,7 +731,9 @@ impl<T: Smp> Inst<T> {
                 len = 0;
             }
             let zf = per_ch("zpc", c).map(|v| v.min(in_next as i64)).unwrap_or(zero_from);
-            win.push(self.fill_input(c, len, zf));
+            // "chbase" on a call: this call's data comes from that channel of the signal (twins of aliased channels)
+            let chbase = gi(op, "chbase", self.chbase as i64).max(0) as usize;
+            win.push(self.fill_input(c, len, zf, chbase));
         }
         for v in &win {
             for x in v {
@@ -766,7 +768,9 @@ impl<T: Smp> Inst<T> {
         let mask_arg: Option<Vec<bool>> = match (&mask_v, op.get("mask_len")) {
             (_, Some(ml)) => {
                 let n = (nch as i64 + ml.as_i64().unwrap_or(0)).max(0) as usize;
-                Some((0..n).map(active).collect())
+                // entries beyond the channel count: "mask_tail" (default true)
+                let tail = gb(op, "mask_tail", true);
+                Some((0..n).map(|c| if c < nch { active(c) } else { tail }).collect())
             }
             (Some(m), None) => Some(m.clone()),
             (None, None) => None,
@@ -820,7 +824,20 @@ impl<T: Smp> Inst<T> {
                 Some(&win[..])
             };
             // slices variant prepared outside the measured region
-            let in_slices: Vec<&[T]> = win.iter().map(|v| &v[..]).collect();
+            // "alias_to": [a0, a1, ...] - channel c is handed the very same slice as channel a_c (dual mono)
+            let alias: Vec<usize> = op
+                .get("alias_to")
+                .and_then(|a| a.as_array())
+                .map(|a| a.iter().map(|x| x.as_i64().unwrap_or(0).max(0) as usize).collect())
+                .unwrap_or_default();
+            let in_slices: Vec<&[T]> = win
+                .iter()
+                .enumerate()
+                .map(|(c, v)| match alias.get(c) {
+                    Some(&a) if a < win.len() => &win[a][..],
+                    _ => &v[..],
+                })
+                .collect();
             // Output slices alias `wout`; they are only used by the "slices" arm, which does not
             // touch `wout` itself.
             let wout_ptr: *mut Vec<Vec<T>> = &mut wout;
@@ -1435,6 +1452,8 @@ fn kernel_events<T: Smp>(op: &Value, cx: &mut Ctx) {
 
 /// One operation on the instance table.
 fn exec_op(insts: &mut Vec<Option<Slot>>, op: &Value, cx: &mut Ctx) {
+    // setters, reset and getters: alternately through the trait (generic code) and with method syntax
+    crate::any::VIA_TRAIT.with(|c| c.set(cx.line % 2 == 0));
     let name = gs(op, "op", "");
     let id = gi(op, "id", 0) as usize;
     if name == "new" {
